@@ -43,11 +43,16 @@ type poConfig struct {
 	// contained: roots whose goroutine recovers panics (net/http handlers); index/slice
 	// obligations reached only from them are reported as info
 	kinds map[string]bool // nil = all kinds
+	// cut: functions at which reachability stops (they and everything only reachable through
+	// them stay outside the engine's scope)
+	cut func(fn *ssa.Function) bool
 }
 
 // runPO runs engine B from the given roots and records every obligation in r.
 func runPO(p *model.Prog, r *report.Result, cfg poConfig) (*po.Engine, int) {
-	reach := p.Reachable(cfg.roots, false, poScopePkg)
+	reach := p.Reachable(cfg.roots, false, func(f *ssa.Function) bool {
+		return poScopePkg(f) && (cfg.cut == nil || !cfg.cut(f))
+	})
 	e := po.New(p)
 	for f := range reach {
 		if poScopePkg(f) {
@@ -69,7 +74,11 @@ func runPO(p *model.Prog, r *report.Result, cfg poConfig) (*po.Engine, int) {
 	})
 	n := 0
 	for _, ob := range obs {
-		if cfg.filter != nil && !cfg.filter(ob.Fn) {
+		ffn := ob.Fn
+		if model.IsNaza(ffn) && ob.FailFn != nil {
+			ffn = ob.FailFn // a helper's failing precondition is attributed to the caller that cannot establish it
+		}
+		if cfg.filter != nil && !cfg.filter(ffn) {
 			continue
 		}
 		if cfg.kinds != nil && !cfg.kinds[ob.Kind] {
